@@ -120,11 +120,64 @@ def run_seeded(pid, repo=None, jobs=8):
         return list(ex.map(lambda sd: _run_seeded(pid, sd, repo), dirs))
 
 
+def _run_benign(pid, bdir, repo):
+    """One behaviour-preserving refactoring (benign/<Ax-k>/patch.diff, written by an independent agent, confirmed at
+    import by a demo on recorded values and the test suite): the check must not report a violation on it."""
+    name = os.path.basename(bdir)
+    d = tempfile.mkdtemp(prefix="pcbn_")
+    try:
+        shutil.copytree(os.path.join(repo, "phyclone"), os.path.join(d, "phyclone"), ignore=shutil.ignore_patterns("__pycache__"))
+        a = subprocess.run(["patch", "-p1", "-s", "--no-backup-if-mismatch", "-i", os.path.join(bdir, "patch.diff")], cwd=d, capture_output=True, text=True)
+        if a.returncode != 0:
+            return {"name": "benign:" + name, "kind": "benign", "status": "stale", "detail": "patch no longer applies"}
+        env = dict(os.environ, PCSTATIC_EVIDENCE_DIR=os.path.join(d, "ev"))
+        p = subprocess.run([sys.executable, "-B", "-m", "pcstatic.main", pid, "--repo", d, "--tier", "quick", "--quiet"], cwd=VERIF, env=env, capture_output=True, text=True, timeout=300)
+        out = p.stdout + p.stderr
+        rules = sorted({l.split("rule=")[1].split()[0] for l in out.splitlines() if "  rule=" in l})
+        res = {"name": "benign:" + name, "kind": "benign", "exit": p.returncode, "rules_fired": rules}
+        res["status"] = "ok" if p.returncode == 0 else ("analysis-error" if p.returncode == 2 else "FALSE-ALARM")
+        if p.returncode == 2:
+            res["detail"] = [l for l in out.splitlines() if "ANALYSIS-ERROR" in l][:1]
+        if p.returncode == 1:
+            res["detail"] = [l for l in out.splitlines() if "  rule=" in l][:2]
+        return res
+    finally:
+        shutil.rmtree(d, ignore_errors=True)
+
+
+def run_benign(pid, repo=None, jobs=8):
+    """Refactorings written for this property or touching code this property's check reads (all of them are run by
+    tools/run_benign.py against all checks; the thorough tier runs those filed under the property)."""
+    repo = repo or model.REPO
+    root = os.path.join(VERIF, "benign")
+    dirs = []
+    for x in sorted(os.listdir(root)) if os.path.isdir(root) else []:
+        mp = os.path.join(root, x, "meta.json")
+        if os.path.exists(mp) and os.path.exists(os.path.join(root, x, "patch.diff")):
+            try:
+                if json.load(open(mp)).get("property") == pid:
+                    dirs.append(os.path.join(root, x))
+            except ValueError:
+                pass
+    with ThreadPoolExecutor(max_workers=jobs) as ex:
+        return list(ex.map(lambda bd: _run_benign(pid, bd, repo), dirs))
+
+
+def benign_known_limits():
+    p = os.path.join(VERIF, "benign", "KNOWN_LIMITS.json")
+    return json.load(open(p)) if os.path.exists(p) else {}
+
+
 def run_for_property(ctx, pid):
     """Thorough tier: run the catalogue and record it in the evidence.  A rule that no longer fires on
     its breaking variant, or fires on a benign one, makes the run an ANALYSIS-ERROR (the checker is
     broken), never a VIOLATION of the property."""
-    res = run_catalogue(pid) + run_seeded(pid)
+    res = run_catalogue(pid) + run_seeded(pid) + run_benign(pid)
+    limits = benign_known_limits()
+    for r in res:
+        if r["name"].startswith("benign:") and r["status"] == "FALSE-ALARM" and r["name"][7:] in limits:
+            r["status"] = "known-limit"
+            r["detail"] = limits[r["name"][7:]][:300]
     ctx.selftest = {
         "variants": len(res),
         "breaking_caught": sum(1 for r in res if r.get("kind") == "break" and r["status"] in ("ok", "ok-other-rule")),
@@ -149,7 +202,7 @@ def main(argv):
     pids = [a.upper() for a in argv if not a.startswith("-")]
     rc = 0
     for pid in pids:
-        res = run_catalogue(pid) + (run_seeded(pid) if "--seeded" in argv else [])
+        res = run_catalogue(pid) + (run_seeded(pid) + run_benign(pid) if "--seeded" in argv else [])
         for r in res:
             print("%-4s %-7s %-44s %-16s %s" % (pid, r.get("kind", ""), r["name"], r["status"], r.get("rules_fired", r.get("detail", ""))))
             if r["status"] in ("MISSED", "FALSE-ALARM", "broken-variant"):
